@@ -38,6 +38,16 @@ def run(chk):
     if 'is violated' not in r['out']:
         raise _t.MachineryError('negative configuration MC_Expr_neg was not refuted')
     chk.extra['negative_configurations_refuted'] = ['MC_Expr_neg.cfg (two precedence rows exchanged in the printer)']
+    # specification -> code: every syntax tree of the model (depth 3) is PRINTED BY TLC with
+    # minimal parentheses in two spelling choices; the token lists are fed to the real add_expr
+    import os as _os
+    dot = _os.path.join(chk.dir, 'exprdump.dot')
+    chk.mc('MC_ExprDump', 'MC_ExprDump.cfg', extra=['-dump', 'dot', dot])
+    gt = [dict(shard=chk.shard('eg_c05_%d' % i), dot=dot, part=i, nparts=8, seed=chk.seed, tid0=5900000 + i * 1000)
+          for i in range(8)]
+    sh_graph, gres = chk.generate(exprgen.expr_graph_task, gt)
+    _os.remove(dot)
+    chk.extra['model_token_lists_fed_to_add_expr'] = sum(len(r['fingerprints']) for r in gres)
     tasks = []
     tid = 5500000
     variants = [0, 1, 2, 4, 7, 8 + 1, 16 + 2, 8 + 16 + 7]
@@ -69,7 +79,7 @@ def run(chk):
                                        nvars_choices=[3, 4, 4], profile='stream', tag='st')
     chk.validate('TraceSweep', 'TraceSweep.cfg', sw)
     sh_stream += common.stage_wide(chk, 'expr')
-    chk.validate('TraceBDD', 'TraceBDD.cfg', sh_stream)
+    chk.validate('TraceBDD', 'TraceBDD.cfg', sh_stream + sh_graph)
     common.sweep_canary(chk, sw[0], 'row.expr', 'expr.meaning')
     chk.assumptions = [
         'TLC + Json reader; adapter',
